@@ -53,6 +53,27 @@ func IsComplexExpr(expr string) bool {
 	return false
 }
 
+// IsVariablePath reports whether expr has the shape of a variable reference: a name or a
+// dotted / bracketed path such as user.name, items[0], data["key"] or a hyphenated key.
+// Everything else that reaches a value position - a prefix operator (!x, -n), a parenthesis,
+// a word operator (x in xs, not x) - is an expression for the evaluator, even though the
+// substring tests of IsComplexExpr do not recognise it.
+func IsVariablePath(expr string) bool {
+	if expr == "" {
+		return false
+	}
+	for i, ch := range expr {
+		switch {
+		case IsIdentifierChar(ch, false):
+		case ch == '.' || ch == '[' || ch == ']' || ch == '"' || ch == '\'':
+		case ch == '-' && i > 0:
+		default:
+			return false
+		}
+	}
+	return true
+}
+
 // NormalizeComparisonOperators coalesces strict comparison operators (=== and !==) to loose operators (== and !=).
 // This is needed because the underlying expr evaluator supports == and != but not === and !==.
 func NormalizeComparisonOperators(expr string) string {
